@@ -138,7 +138,26 @@ class Known:
 
 
 def _call_check(check, case):
-    r = check(case)
+    try:
+        r = check(case)
+    except HarnessError:
+        raise
+    except Exception as e:
+        # an exception that escapes from the code under test while a check calls it is a finding about that code (the
+        # properties promise values or documented exceptions that the checks handle themselves), never a harness crash;
+        # an exception raised by the harness' own code is a harness error.
+        tb = traceback.extract_tb(e.__traceback__)
+        root = os.path.realpath(REPO) + os.sep
+        lib = [f for f in tb if os.path.realpath(f.filename).startswith(root)]
+        if not lib or (tb and not os.path.realpath(tb[-1].filename).startswith(root)
+                       and "site-packages" not in tb[-1].filename and "/lib/python" not in tb[-1].filename
+                       and "/verif/vlib/clock.py" not in tb[-1].filename):
+            raise HarnessError("check raised %s: %s\n%s" % (type(e).__name__, e, "".join(traceback.format_tb(e.__traceback__)[-6:])))
+        f = lib[-1]
+        return {"ok": False, "bucket": "raises:%s:%s:%s" % (type(e).__name__, os.path.basename(f.filename), f.name),
+                "detail": "the library raised %s: %s at %s:%d (%s) for case %r"
+                          % (type(e).__name__, str(e)[:200], f.filename, f.lineno, f.name, case),
+                "key": None, "cls": ["library-exception"]}
     if not isinstance(r, dict) or "ok" not in r:
         raise HarnessError("check_case returned %r" % (r,))
     return r
